@@ -18,6 +18,10 @@ STEP_THEOREMS = ['FlexVerif.C01Step.' + t for t in ('tab_eval', 'comp_code', 'co
                                                   'prevState_shape', 'nulTrans_spec', 'cellStep_eq_stepByte', 'forBody_run', 'for_loop',
                                                   'prevState_spec')]
 THEOREMS += STEP_THEOREMS
+GEN_THEOREMS = ['FlexVerif.C01StepGen.' + t for t in ('comp_code', 'step_code', 'nulTrans_spec', 'cellStep_eq_stepByte', 'forBody_run', 'for_loop',
+                                                   'prevState_spec', 'bodyNM_ok', 'bodyM_ok', 'classE_ok', 'classNE_ok', 'shape_Cem', 'shape_Ce',
+                                                   'shape_Cm', 'shape_C', 'prevState_all', 'nulTrans_all')]
+THEOREMS += GEN_THEOREMS
 THEOREMS += ['FlexVerif.C01StepBuf.walk_prevFrom', 'FlexVerif.C01StepBuf.nulTrans_tableDFA']
 THEOREMS += ['FlexVerif.C01StepC99.' + t for t in ('prevState_same', 'nulTrans_same', 'prevState_spec_c99', 'nulTrans_spec_c99')]
 
@@ -30,10 +34,12 @@ def regen_prevstate():
     try:
         body, info = gen_prevstate.generate(flex, flexrun.scratch_root())
         body99, info99 = gen_prevstate.generate_c99(flex, flexrun.scratch_root())
+        variants = [(ns, gen_prevstate.generate_variant(flex, flexrun.scratch_root(), opt, ns)[0]) for opt, ns in gen_prevstate.VARIANTS]
     except gen_prevstate.TranslateError as e:
         return None, str(e)
     files = [(os.path.join(common.LEAN_DIR, 'FlexVerif', 'Gen', 'PrevState.lean'), body),
-             (os.path.join(common.LEAN_DIR, 'FlexVerif', 'Gen', 'PrevStateC99.lean'), body99)]
+             (os.path.join(common.LEAN_DIR, 'FlexVerif', 'Gen', 'PrevStateC99.lean'), body99)] + \
+        [(os.path.join(common.LEAN_DIR, 'FlexVerif', 'Gen', ns + '.lean'), text) for ns, text in variants]
     lock = open(os.path.join(common.LEAN_DIR, '.build.lock'), 'w')
     fcntl.flock(lock, fcntl.LOCK_EX)
     try:
